@@ -1,5 +1,234 @@
-//! C19 placeholder module (filled in below).
+//! C19: generators, collectors and the uninitialised-buffer writer on the real code.
+use std::collections::VecDeque;
+
+use serde_json::Value;
+use tevec::export::ndarray::Array1;
+use tevec::prelude::*;
 use tvh_common::*;
-pub fn replay(_args: &Args) {
-    tool_error("replay-gen not built yet");
+
+fn seq_eq_f(got: &[f64], want: &[f64]) -> Result<(), String> {
+    if got.len() != want.len() {
+        return Err(format!("{} elements {:?}, want {} {:?}", got.len(), got, want.len(), want));
+    }
+    for (i, (g, w)) in got.iter().zip(want).enumerate() {
+        if (g - w).abs() > 1e-12 * w.abs().max(1.0) {
+            return Err(format!("element {i} is {g}, want {w} (got {got:?}, want {want:?})"));
+        }
+    }
+    Ok(())
+}
+
+pub fn replay(args: &Args) {
+    let cases = read_ndjson(args.req("in"));
+    let mut rep = Report::new(args.get("prop").unwrap_or("C19"), args.req("out"));
+    for v in &cases {
+        let op = get_str(v, "op");
+        match op {
+            "range" => range(&mut rep, v),
+            "linspace" => linspace(&mut rep, v),
+            "collect" => collect(&mut rep, v),
+            "writer" => writer(&mut rep, v),
+            _ => continue,
+        }
+        rep.cases += 1;
+        if rep.cases % 300 == 1 {
+            rep.sample(v.clone());
+        }
+    }
+    rep.finish();
+}
+
+fn judge(rep: &mut Report, f: &str, key: &str, cell: &str, r: Result<Result<(), String>, String>, case: &Value) {
+    rep.cells += 1;
+    match r {
+        Ok(Ok(())) => rep.ok(f, 0.0),
+        Ok(Err(d)) => rep.mismatch(f, f, key, cell, &d, case),
+        Err(p) => rep.mismatch(f, f, key, cell, &format!("panicked: {p}"), case),
+    }
+}
+
+fn range(rep: &mut Report, v: &Value) {
+    let (a, b, step) = (get_i64(v, "a"), get_i64(v, "b"), get_i64(v, "step"));
+    let want = get_ints(v, "want");
+    let key = format!("range|a={a},b={b},step={step}");
+    let wf: Vec<f64> = want.iter().map(|x| *x as f64).collect();
+    // integers
+    judge(rep, "range", &key, "Vec<i32>", catch(|| {
+        let got: Vec<i32> = Vec1Create::range(Some(a as i32), b as i32, Some(step as i32));
+        seq_eq_f(&got.iter().map(|x| *x as f64).collect::<Vec<_>>(), &wf)
+    }), v);
+    judge(rep, "range", &key, "VecDeque<i64>", catch(|| {
+        let got: VecDeque<i64> = Vec1Create::range(Some(a), b, Some(step));
+        seq_eq_f(&got.iter().map(|x| *x as f64).collect::<Vec<_>>(), &wf)
+    }), v);
+    if a >= 0 && b >= 0 && step > 0 {
+        judge(rep, "range", &key, "Vec<usize>", catch(|| {
+            let got: Vec<usize> = Vec1Create::range(Some(a as usize), b as usize, Some(step as usize));
+            seq_eq_f(&got.iter().map(|x| *x as f64).collect::<Vec<_>>(), &wf)
+        }), v);
+        if a == 0 && step == 1 {
+            judge(rep, "range", &format!("{key}(defaults)"), "Vec<i32>", catch(|| {
+                let got: Vec<i32> = Vec1Create::range(None, b as i32, None);
+                seq_eq_f(&got.iter().map(|x| *x as f64).collect::<Vec<_>>(), &wf)
+            }), v);
+        }
+    }
+    // floats: the same progression, and the same divided by 4 (dyadic: exact in binary)
+    judge(rep, "range", &key, "Vec<f64>", catch(|| {
+        let got: Vec<f64> = Vec1Create::range(Some(a as f64), b as f64, Some(step as f64));
+        seq_eq_f(&got, &wf)
+    }), v);
+    judge(rep, "range", &format!("{key}(/4)"), "Array1<f64>", catch(|| {
+        let got: Array1<f64> = Vec1Create::range(Some(a as f64 / 4.0), b as f64 / 4.0, Some(step as f64 / 4.0));
+        seq_eq_f(&got.to_vec(), &wf.iter().map(|x| x / 4.0).collect::<Vec<_>>())
+    }), v);
+    judge(rep, "range", &format!("{key}(/4)"), "Vec<Option<f64>>", catch(|| {
+        let got: Vec<Option<f64>> = Vec1Create::range(Some(a as f64 / 4.0), b as f64 / 4.0, Some(step as f64 / 4.0));
+        seq_eq_f(&got.iter().map(|x| x.unwrap_or(f64::NAN)).collect::<Vec<_>>(), &wf.iter().map(|x| x / 4.0).collect::<Vec<_>>())
+    }), v);
+    judge(rep, "range", &key, "Vec<f32>", catch(|| {
+        let got: Vec<f32> = Vec1Create::range(Some(a as f32), b as f32, Some(step as f32));
+        seq_eq_f(&got.iter().map(|x| *x as f64).collect::<Vec<_>>(), &wf)
+    }), v);
+}
+
+fn linspace(rep: &mut Report, v: &Value) {
+    let (a, b, n) = (get_i64(v, "a"), get_i64(v, "b"), get_i64(v, "n") as usize);
+    let want = Exp::parse_seq(&v["want"]);
+    let key = format!("linspace|a={a},b={b},n={n}");
+    let wf: Vec<f64> = want.iter().map(|e| e.value().unwrap()).collect();
+    judge(rep, "linspace", &key, "Vec<f64>", catch(|| {
+        let got: Vec<f64> = Vec1Create::linspace(Some(a as f64), b as f64, n);
+        seq_eq_f(&got, &wf)
+    }), v);
+    judge(rep, "linspace", &key, "VecDeque<f64>", catch(|| {
+        let got: VecDeque<f64> = Vec1Create::linspace(Some(a as f64), b as f64, n);
+        seq_eq_f(&got.iter().cloned().collect::<Vec<_>>(), &wf)
+    }), v);
+    // integers: n elements starting at a with a constant step
+    judge(rep, "linspace", &key, "Vec<i32>", catch(|| {
+        let got: Vec<i32> = Vec1Create::linspace(Some(a as i32), b as i32, n);
+        if got.len() != n {
+            return Err(format!("{} elements for n = {n}", got.len()));
+        }
+        if n >= 1 && got[0] != a as i32 {
+            return Err(format!("starts at {} instead of {a}", got[0]));
+        }
+        if n >= 3 && any_of(got.windows(2), |w| w[1] - w[0] != got[1] - got[0]) {
+            return Err(format!("step not constant: {got:?}"));
+        }
+        Ok(())
+    }), v);
+    // full
+    judge(rep, "full", &format!("full|len={n},v={a}"), "Vec<f64>/Array1<i32>", catch(|| {
+        let f: Vec<f64> = Vec1::full(n, a as f64);
+        let g: Array1<i32> = Vec1::full(n, a as i32);
+        let e: Vec<f64> = Vec1::empty();
+        if f.len() != n || any_of(f.iter(), |x| *x != a as f64) || g.len() != n || any_of(g.iter(), |x| *x != a as i32) || !e.is_empty() {
+            return Err(format!("full({n}, {a}) = {f:?} / {g:?}, empty() = {e:?}"));
+        }
+        Ok(())
+    }), v);
+}
+
+fn collect(rep: &mut Report, v: &Value) {
+    let items = get_ints(v, "items");
+    let first_error = get_i64(v, "first_error");
+    let n = items.len();
+    let key = format!("collect|items={items:?}");
+    let vals: Vec<f64> = items.iter().map(|x| if *x == -1 { f64::NAN } else { *x as f64 }).collect();
+    let same = |got: &[f64]| -> Result<(), String> {
+        if got.len() != n || !all_of(got.iter().zip(&vals), |(g, w)| g.to_bits() == w.to_bits() || (g.is_nan() && w.is_nan())) {
+            Err(format!("collected {got:?}, want {vals:?}"))
+        } else {
+            Ok(())
+        }
+    };
+    judge(rep, "collect_vec1", &key, "Vec<f64>", catch(|| same(&vals.clone().into_iter().collect_vec1::<Vec<f64>>())), v);
+    judge(rep, "collect_vec1", &key, "VecDeque<f64>", catch(|| same(&vals.clone().into_iter().collect_vec1::<VecDeque<f64>>().into_iter().collect::<Vec<_>>())), v);
+    judge(rep, "collect_trusted_vec1", &key, "Vec<f64>", catch(|| same(&vals.clone().into_iter().collect_trusted_vec1::<Vec<f64>>())), v);
+    judge(rep, "collect_trusted_vec1", &key, "Array1<f64>", catch(|| same(&vals.clone().into_iter().collect_trusted_vec1::<Array1<f64>>().to_vec())), v);
+    judge(rep, "collect_trusted_vec1", &key, "VecDeque<f64>", catch(|| same(&vals.titer().collect_trusted_vec1::<VecDeque<f64>>().into_iter().collect::<Vec<_>>())), v);
+    judge(rep, "collect_vec1_with_len", &key, "Vec<f64>", catch(|| same(&vals.clone().into_iter().filter(|_| true).collect_vec1_with_len::<Vec<f64>>(n))), v);
+    // optional items -> null-encoded
+    let opt: Vec<Option<f64>> = items.iter().map(|x| if *x == -1 { None } else { Some(*x as f64) }).collect();
+    judge(rep, "collect_vec1_opt", &key, "Vec<f64>", catch(|| same(&opt.clone().into_iter().collect_vec1_opt::<Vec<f64>>())), v);
+    judge(rep, "collect_vec1_opt", &key, "Array1<f64>", catch(|| same(&opt.clone().into_iter().collect_vec1_opt::<Array1<f64>>().to_vec())), v);
+    // fallible: the first error wins
+    let fallible = || -> Vec<TResult<f64>> {
+        items.iter().enumerate().map(|(i, x)| if *x == -1 { Err(terr!("e{}", i + 1)) } else { Ok(*x as f64) }).collect()
+    };
+    let judge_try = |r: TResult<Vec<f64>>| -> Result<(), String> {
+        match (r, first_error) {
+            (Ok(got), 0) => same(&got),
+            (Err(e), k) if k > 0 => {
+                let m = e.to_string();
+                if m.contains(&format!("e{k}")) && !m.contains(&format!("e{}", k + 2)) { Ok(()) } else { Err(format!("error {m:?} is not the first one (e{k})")) }
+            },
+            (Ok(got), k) => Err(format!("Ok({got:?}) although item {k} is an error")),
+            (Err(e), _) => Err(format!("Err({e}) although no item is an error")),
+        }
+    };
+    judge(rep, "try_collect_vec1", &key, "Vec<f64>", catch(|| judge_try(fallible().try_collect_vec1::<Vec<f64>>())), v);
+    judge(rep, "try_collect_trusted_vec1", &key, "Vec<f64>", catch(|| judge_try(fallible().try_collect_trusted_vec1::<Vec<f64>>())), v);
+    judge(rep, "try_collect_vec1", &key, "VecDeque<f64>", catch(|| judge_try(fallible().try_collect_vec1::<VecDeque<f64>>().map(|d| d.into_iter().collect()))), v);
+    judge(rep, "try_collect_trusted_vec1", &key, "Array1<f64>", catch(|| judge_try(fallible().try_collect_trusted_vec1::<Array1<f64>>().map(|d| d.to_vec()))), v);
+    judge(rep, "try_collect_vec1", &key, "Array1<f64>", catch(|| judge_try(fallible().try_collect_vec1::<Array1<f64>>().map(|d| d.to_vec()))), v);
+}
+
+fn writer(rep: &mut Report, v: &Value) {
+    let (bl, il) = (get_i64(v, "bl") as usize, get_i64(v, "il") as usize);
+    let outcome = get_str(v, "outcome");
+    let src = get_ints(v, "src");
+    let key = format!("write_trust_iter|buffer={bl},iter={il}");
+    let items: Vec<f64> = (0..il).map(|i| 100.0 + i as f64).collect();
+    // instrumented buffer: every write is logged
+    judge(rep, "write_trust_iter", &key, "SpyOut<f64>", catch(|| {
+        clear_log();
+        let mut u = SpyOut::<f64>::uninit(bl);
+        let r = items.titer().write(&mut SpyOut::<f64>::uninit_ref_mut(&mut u));
+        let log = take_log();
+        let writes: Vec<usize> = log.iter().filter_map(|e| if let Ev::Uset { i } = e { Some(*i) } else { None }).collect();
+        let faults = safety_faults(&log);
+        if !faults.is_empty() {
+            return Err(format!("memory-safety envelope broken: {}", faults.join("; ")));
+        }
+        match (r, outcome) {
+            (Ok(()), "ok") => {
+                let mut w = writes.clone();
+                w.sort();
+                if w != (0..bl).collect::<Vec<_>>() {
+                    return Err(format!("Ok but the slots written are {writes:?} for a buffer of {bl}"));
+                }
+                let out = unsafe { u.assume_init() }.0;
+                let want: Vec<f64> = src.iter().map(|i| 100.0 + *i as f64).collect();
+                if out != want { Err(format!("buffer holds {out:?}, want {want:?}")) } else { Ok(()) }
+            },
+            (Err(_), "error") => {
+                if writes.is_empty() { Ok(()) } else { Err(format!("length mismatch reported after writing slots {writes:?}")) }
+            },
+            (Ok(()), _) => Err("Ok although the lengths do not match".into()),
+            (Err(e), _) => Err(format!("Err({e}) although the lengths match")),
+        }
+    }), v);
+    // ordinary buffer, pre-filled with a sentinel
+    judge(rep, "write_trust_iter", &key, "Vec<MaybeUninit<f64>>", catch(|| {
+        let mut u = Vec::<f64>::uninit(bl);
+        for s in u.iter_mut() {
+            s.write(-7.0);
+        }
+        let r = {
+            let mut rf = Vec::<f64>::uninit_ref_mut(&mut u);
+            items.titer().write(&mut rf)
+        };
+        let out: Vec<f64> = unsafe { u.assume_init() };
+        match (r.is_ok(), outcome) {
+            (true, "ok") => {
+                let want: Vec<f64> = src.iter().map(|i| 100.0 + *i as f64).collect();
+                if out != want { Err(format!("buffer holds {out:?}, want {want:?}")) } else { Ok(()) }
+            },
+            (false, "error") => if all_of(out.iter(), |x| *x == -7.0) { Ok(()) } else { Err(format!("length mismatch reported after partial writes: {out:?}")) },
+            (ok, _) => Err(format!("returned ok={ok}, specification says {outcome}")),
+        }
+    }), v);
 }
